@@ -282,6 +282,30 @@ pub fn run(op: &str, a: &[&str]) -> Option<String> {
             }
             with_digest!(a[0], mk => go(mk, &salt, &ikm, n)).unwrap_or_else(|| "bad-args".to_string())
         }
+        "kdf.hkdf_extract_used" | "kdf.hkdf_expand_used" if a.len() == 5 => {
+            let fin = a[1].ends_with('!');
+            let pre = unhex(a[1].trim_end_matches('!'));
+            let (x, y, n) = (unhex(a[2]), unhex(a[3]), us(a[4]));
+            let extract = op == "kdf.hkdf_extract_used";
+            fn go<D: Digest>(mk: impl FnOnce() -> D, pre: &[u8], fin: bool, extract: bool, x: &[u8], y: &[u8], n: usize) -> String {
+                guarded(|| {
+                    let mut d = mk();
+                    d.input(pre);
+                    if fin {
+                        let mut o = vec![0u8; d.output_bytes()];
+                        d.result(&mut o);
+                    }
+                    let mut out = vec![0xa5u8; n];
+                    if extract {
+                        hkdf_extract(d, x, y, &mut out);
+                    } else {
+                        hkdf_expand(d, x, y, &mut out);
+                    }
+                    hex(&out)
+                })
+            }
+            with_digest!(a[0], mk => go(mk, &pre, fin, extract, &x, &y, n)).unwrap_or_else(|| "bad-args".to_string())
+        }
         "kdf.hkdf_expand" => {
             let (prk, info, n) = (unhex(a[1]), unhex(a[2]), us(a[3]));
             fn go<D: Digest>(mk: impl FnOnce() -> D, prk: &[u8], info: &[u8], n: usize) -> String {
